@@ -481,7 +481,14 @@ inductive SepD where
   | cls (cs : List Char)     -- regex `[cs]+` / callable: leftmost longest run of characters of the class
   | star (cs : List Char)    -- regex `[cs]*`: matches (possibly the empty string) right at the offset
   | eos                      -- regex `\Z`: the empty match at the end of the string
+  | notAfter (c : Char)      -- regex `(?<!c)c`: the character `c` not preceded (in the WHOLE string) by `c`
+  | atStartOr (c d : Char)   -- regex `d|^c`: `d` anywhere, `c` only at offset 0 of the string (not of the search)
 deriving Repr, Inhabited
+
+/-- leftmost `i ≥ p` with `ok text i` (scan over the whole string: what precedes `p` stays visible) -/
+def scanFrom (ok : Str → Nat → Bool) (text : Str) (p : Nat) : Nat → Option Nat
+  | 0 => none
+  | f+1 => if p ≥ text.length then none else if ok text p then some p else scanFrom ok text (p + 1) f
 
 def altsAtAux (l : List Str) : Str → Nat → Ans
   | [], _ => .noMatch
@@ -505,6 +512,14 @@ def SepD.matcher : SepD → Matcher
   | .star k => fun text p => if p > text.length then .noMatch else
       .found p (p + ((text.drop p).takeWhile (fun x => k.contains x)).length)
   | .eos => fun text p => if p > text.length then .noMatch else .found text.length text.length
+  | .notAfter c => fun text p =>
+      match scanFrom (fun t i => t[i]? == some c && (i == 0 || t[i-1]? != some c)) text p (text.length + 1) with
+      | some i => .found i (i + 1)
+      | none => .noMatch
+  | .atStartOr c d => fun text p =>
+      match scanFrom (fun t i => t[i]? == some d || (i == 0 && t[i]? == some c)) text p (text.length + 1) with
+      | some i => .found i (i + 1)
+      | none => .noMatch
 
 /-- a callable that signals "no more separators" with a start index < -1 -/
 def withNeg (m : Matcher) : Matcher := fun t p =>
@@ -572,6 +587,8 @@ def parseSepD (s : String) : Option SepD :=
   else if s.startsWith "K:" then (decodeStr (s.drop 2).toString).map SepD.cls
   else if s.startsWith "S:" then (decodeStr (s.drop 2).toString).map SepD.star
   else if s == "E:" then some SepD.eos
+  else if s.startsWith "B:" then (match decodeStr (s.drop 2).toString with | some [c] => some (SepD.notAfter c) | _ => none)
+  else if s.startsWith "H:" then (match decodeStr (s.drop 2).toString with | some [c, d] => some (SepD.atStartOr c d) | _ => none)
   else if s.startsWith "A:" then
     (((s.drop 2).toString.splitOn "|").foldr (fun f acc => match decodeStr f, acc with
       | some t, some l => some (t :: l)
